@@ -47,3 +47,6 @@ Check (C16_bedgraph_pipeline_records : forall fparse szs recs file ips, (0 < ips
   Forall (fun r => bg_start r < bg_end r) recs ->
   bedgraph_to_bigwig fparse (format_sizes szs) (format_bedgraph_text recs) = Ok file ->
   bigwig_to_bedgraph ips file None None None = map (bg_value fparse) recs).
+Check (C16_compat_args_tools : forall tool args, In tool COMPAT_COMMANDS ->
+  compat_args (tool :: args) = compat_args_vec (tool :: args) /\
+  compat_args (COMPAT_MULTICALL :: tool :: args) = compat_args_vec (COMPAT_MULTICALL :: tool :: args)).
